@@ -35,7 +35,7 @@ DOC = {
             "empty default accumulator (TS5); the verifier db starts empty / keccak-bound and every proof node is stored through "
             "_set_raw_node, which hashes and stores every non-blank node (EFF3, TS5, ABS6/SIB9); the answer is at_root(root).get(key); only "
             "BadTrieProof or argument validation can leave get_from_proof (EXC1, EXC5); the prover does not write (EFF4); the recursion of the "
-            "prover passes its accumulators explicitly (FWD)",
+            "prover passes its accumulators explicitly (FWD); the same table for the prover written as a generator that get_proof wraps in tuple(..): each non-blank node yielded exactly once before the descent (TS5, second form)",
             "that no forged list of well-formed nodes yields a wrong value (cryptographic / value level)",
             "exception-flow with context-sensitive feasibility; def-use binding of db keys; accumulator typestate"),
     "C04": ("only the pruning arm deletes db entries, on every call chain from every public entry, including failure handlers of db "
@@ -106,7 +106,7 @@ DOC = {
             "db-loaded values are yielded (PROV3); the verifier db is keyed by keccak (EFF3); every `return True` of if_branch_valid is "
             "dominated by the non-empty check and the read at the claimed root, no other refusal (TS6); helpers never write (EFF4); the claimed "
             "root is what the verifier trie is opened at (FWD); the public helpers pass (db, root, encode_to_bin(key)) in order to their walker "
-            "and if_branch_valid answers True; the witness adds the subtrie exactly on an exhausted key (ROUTE3)",
+            "and if_branch_valid answers True; the witness adds the subtrie exactly on an exhausted key (ROUTE3); every kv / branch node the witness walk reaches is part of the witness whatever the comparison says (SIB4 witness table)",
             "sufficiency for every key below a prefix; unforgeability (value level)",
             "decision tables by path enumeration; typestate; effect summaries"),
     "C14": ("delete is set(key, configured default), the default comes from the constructor only (PROV2); from_db forwards its "
@@ -128,7 +128,7 @@ DOC = {
             "classifiers agree on every node shape, leaf/extension key duals (SIB8); nibble tables and the range / parity refusals of "
             "nibbles_to_bytes (PROV9); bit order of encode_to_bin / decode_from_bin (weights 128..1, set bit written as 1) and the header "
             "layout of the key-path packing over the finite case split, the header choice evaluated for padded lengths 0..28 (SIB7b); type bytes "
-            "and flags by value (DEFAULTS); validators and encoder guards as tables (VALTAB); parse_node also refuses b'' and None (EXC6)",
+            "and flags by value (DEFAULTS); validators and encoder guards as tables (VALTAB); parse_node also refuses b'' and None (EXC6); the key-path reader refuses nothing the writer produces: no length bound the writer lacks (SIB7b)",
             "arithmetic of the packing beyond the case split (arbitrary lengths are covered by the length-mod-4 x padded-length-mod-8 split)",
             "abstract evaluation of path conditions on finite grids; writer/reader layout comparison"),
     "C17": ("the wrapped db is written only on the resumed-normally outcome of the yield, the exception outcome re-raises, the cache is "
@@ -144,7 +144,8 @@ DOC = {
             "construction validates key and value before anything is stored (VAL2); default arguments by value (DEFAULTS); the validators "
             "themselves as tables - validate_is_bytes / validate_length / validate_is_node / validate_is_bin_node (VALTAB); refusals are raised as "
             "the class named: no %-formatting with a bare parameter (VALMSG), exception names denote trie.exceptions classes (EXCORIGIN); the "
-            "ref_count guard over {None, empty, non-empty} (VAL3)",
+            "ref_count guard over {None, empty, non-empty}, no object of a guarded class is made with __new__ behind its constructor (VAL3); a validator "
+            "inside a memoised (lru_cache) helper does not count: arguments are hashed first and a hit skips it (VAL1)",
             "nothing further within the scope stated in DESIGN.md 4.18",
             "taint-style validation dominance over enumerated paths, interprocedural forwarding"),
 }
